@@ -22,6 +22,15 @@ for pid in ids:
         m = json.load(open(os.path.join(d, "meta.json")))
         lines.append("- " + " ".join((m.get("summary") or "").split())[:330])
     out = head + "Earlier defects:\n" + "\n".join(lines) + "\n\n\nTask:" + tail
+    if rnd >= 5:
+        out = out.replace("(g) two cooperating edits that each look like a harmless clean-up.",
+                          "(g) two cooperating edits that each look like a harmless clean-up; (h) the interaction of two "
+                          "features of the public API that are each exercised alone by the tests; (i) what is left behind when a "
+                          "user-supplied function (node function, proposal, log-prob, jitter, transition function) raises or "
+                          "returns something unusual (NaN, wrong shape, weak type); (j) public helper functions and "
+                          "convenience wrappers that reach the same machinery by another path than the one everybody uses; "
+                          "(k) values at the edge of the documented domain (empty collections, a single chain, a single "
+                          "iteration, duration 1, thinning equal to the duration).")
     out = out.replace(f"{pid}r3", f"{pid}r{rnd}")
     open(f"/tmp/seed/{pid}r{rnd}.prompt.txt", "w").write(out)
     print(pid, len(lines), "earlier defects")
